@@ -26,6 +26,15 @@ Facts about Go's primitives that the model relies on (not verified, see props/C0
   other lock region is a single transition that is enabled only while the reader does not
   hold that slot's mutex. `read1`/`read2`/`resc` are touched by their dedicated goroutine only.
 
+Wake-up targets (who is woken by which step; theorems C02.signal_wakes_a_waiting_caller,
+C02.broadcast_wakes_only_the_writer; C02.one_cond_var_variant_deadlocks shows that merging the
+two wait sets breaks deadlock freedom):
+* c1's wait set of slot s = the callers with `Pc.waiting s`; only `rSignal w` (FinishResult)
+  removes one member (`w`), and it must remove one if the set is not empty;
+* c2's wait set of slot s = the writer while `WPc.sleeping s`; only `bcast c` (PutOne/PutMulti
+  after it saw `slept`) wakes it; the reader's Signal never reaches the writer and the callers'
+  Broadcast never reaches a parked caller.
+
 The counters are unbounded naturals here; the Go fields hold them modulo 2^32 and the slot
 index is `(counter mod 2^32) mod 2^k` (`slotOf`), so counter wrap-around is part of the model.
 `read1` counts the commands taken so far (Go's field is one ahead while WaitForWrite sleeps
